@@ -190,3 +190,91 @@ def gen_size_cases(tier):
           ([(1, 0), (2, 1)], 7, [2 ** 29, 2 ** 29]), ([(1,), (2,), (3,), (4,)], 0, [G, G, G, G]),
           ([(1,), (70000,)], 0, [2 ** 31, 2 ** 31 + 3]), ([(300,)], 2, [3 * G + 11])]
     return cs
+
+
+# --------------------------------------------------------------------------------------------------
+# crash points of the real writer at system-call granularity (strace)
+# --------------------------------------------------------------------------------------------------
+CHILD = r'''
+import sys, json
+sys.path.insert(0, %(verif)r)
+from harness import build
+build.load_catii()
+import numpy as np
+from catii.indxio import IndxIO
+spec = json.load(open(sys.argv[1]))
+entries = {tuple(c): np.array(r, dtype=np.uint32) for c, r in spec["ents"]}
+with open(sys.argv[2], "wb") as f:
+    IndxIO.save(f, entries, spec["common"], np.dtype(np.uint32))
+'''
+
+
+def syscall_disk_states(arity, common, ents, wd, verif):
+    """Run the real save() in a child under strace and replay its write/lseek/pwrite/ftruncate system calls:
+    returns (final_bytes, [(label, bytes_on_disk), ...]) with one state after every system call that changes
+    the file and one for every byte boundary inside every write."""
+    import json as _json
+    import re
+    import subprocess
+    import sys as _sys
+    spec = os.path.join(wd, "spec.json")
+    out = os.path.join(wd, "traced.indx")
+    log = os.path.join(wd, "strace.log")
+    child = os.path.join(wd, "child.py")
+    open(child, "w").write(CHILD % {"verif": verif})
+    _json.dump({"ents": [[list(c), list(r)] for c, r in ents], "common": common}, open(spec, "w"))
+    p = subprocess.run(["strace", "-f", "-x", "-s", "1000000", "-e",
+                        "trace=openat,write,pwrite64,lseek,ftruncate,close,dup,dup2,dup3,fcntl", "-o", log,
+                        _sys.executable, child, spec, out], capture_output=True, text=True, timeout=300)
+    if p.returncode != 0 or not os.path.exists(out):
+        raise RuntimeError("traced save failed: %s" % (p.stdout + p.stderr)[-800:])
+    final = open(out, "rb").read()
+    fds, disk, pos, states = set(), bytearray(), 0, []
+    started = False
+
+    def unhex(s):
+        return bytes(int(x, 16) for x in re.findall(r"\\x([0-9a-f]{2})", s))
+
+    def put(at, data, label):
+        nonlocal disk
+        for n in range(1, len(data) + 1):
+            end = at + n
+            if len(disk) < end:
+                disk.extend(b"\0" * (end - len(disk)))
+            disk[at + n - 1] = data[n - 1]
+            states.append(("%s byte %d/%d" % (label, n, len(data)), bytes(disk)))
+
+    for line in open(log):
+        m = re.match(r"\d+\s+(\w+)\((.*)\)\s+= (-?\d+)", line)
+        if not m:
+            continue
+        call, args, ret = m.group(1), m.group(2), int(m.group(3))
+        if call == "openat" and '"%s"' % out in args and ret >= 0:
+            fds, disk, pos, started = {ret}, bytearray(), 0, True
+            states.append(("opened (truncated)", b""))
+            continue
+        if not started or ret < 0:
+            continue
+        fd = int(re.match(r"(\d+)", args).group(1)) if re.match(r"\d+", args) else None
+        if call in ("dup", "dup2", "dup3") and fd in fds:
+            fds.add(ret)
+        elif call == "fcntl" and fd in fds and "F_DUPFD" in args:
+            fds.add(ret)
+        elif call == "close" and fd in fds:
+            fds.discard(fd)
+        elif call == "lseek" and fd in fds:
+            pos = ret
+        elif call == "write" and fd in fds:
+            data = unhex(args)[:ret]
+            put(pos, data, "write@%d" % pos)
+            pos += ret
+        elif call == "pwrite64" and fd in fds:
+            off = int(args.rsplit(",", 1)[1])
+            put(off, unhex(args)[:ret], "pwrite@%d" % off)
+        elif call == "ftruncate" and fd in fds:
+            n = int(args.split(",")[1])
+            disk = disk[:n] if len(disk) >= n else disk + bytearray(n - len(disk))
+            states.append(("ftruncate %d" % n, bytes(disk)))
+    if bytes(disk) != final:
+        raise RuntimeError("system-call replay does not reproduce the file (%d vs %d bytes)" % (len(disk), len(final)))
+    return final, states
